@@ -22,7 +22,7 @@ func init() {
 		Doc: "SortValue.Less / EquivalentTo over all (type × type × per-field orderings × NaN flags × strict mode) worlds: the two directions are one of (TRUE,FALSE), (FALSE,TRUE) or (UNKNOWN,UNKNOWN) — a tie is symmetric and never reported as FALSE/FALSE (which would stop the comparison before the following sort keys) — and EquivalentTo(a,b) is symmetric and implies a tie",
 		Run: ruleSrt1})
 	Register(&Rule{ID: "R-SRT-2", Props: []string{"C07"}, Floor: 1,
-		Doc: "one key of SortValues.Less as a function of (element comparison, direction, null-ness, null position): antisymmetric; falls through to the next key exactly when the pair is tied on this key; ASC/DESC and NULLS FIRST/LAST mirror each other",
+		Doc: "SortValues.Less over two keys as a function of (element comparison, direction, null-ness, null position) per key: the first key that is not tied decides; a key is tied exactly when the element comparison ties and both values are NULL or both are not; a tie falls through to the next key; ASC/DESC and NULLS FIRST/LAST mirror each other",
 		Run: ruleSrt2})
 	Register(&Rule{ID: "R-SRT-3", Props: []string{"C07", "C17"}, Floor: 3,
 		Doc: "View.Swap exchanges elements i and j of every per-record parallel slice of View (every field of View whose type is a slice indexed by record, that is assigned while sorting) — a slice left out would detach rows from their sort keys",
@@ -190,17 +190,35 @@ func ruleSrt2(c *Ctx) {
 	svt := c.P.Type("lib/query", "SortValueType")
 	cells := 0
 	var bad []string
-	// the element comparison is abstracted to its three results; null-ness by Type
+	// Two sort keys: the element comparison of each key is abstracted to its
+	// three results, null-ness by Type. Specification: the first key that is
+	// not tied decides; a key is tied iff the element comparison is a tie and
+	// the two values are both NULL or both non-NULL; with every key tied
+	// neither row sorts first.
+	decide := func(el int, aNull, bNull bool, dir, np int64) string {
+		switch {
+		case el == 0:
+			return map[bool]string{true: "before", false: "after"}[dir == asc]
+		case el == 2:
+			return map[bool]string{true: "after", false: "before"}[dir == asc]
+		case aNull && !bNull:
+			return map[bool]string{true: "before", false: "after"}[np == first]
+		case !aNull && bNull:
+			return map[bool]string{true: "after", false: "before"}[np == first]
+		}
+		return "tie"
+	}
 	for _, dir := range []int64{asc, descD} {
 		for _, np := range []int64{first, last} {
-			n, err := absint.Enumerate(20000, func(w *absint.World) {
-				run := func(x, y string, flip bool) (string, bool) {
+			// the second key always ASC / NULLS FIRST: its table is the same function
+			n, err := absint.Enumerate(60000, func(w *absint.World) {
+				run := func(swap bool) (string, bool) {
 					it := sortValueInterp(c, w)
 					it.Models["lib/query.(*SortValue).Less"] = func(it *absint.Interp, call ssa.CallInstruction, a []absint.Val) (absint.Val, bool) {
-						// one decision for the pair, mirrored for the swapped call:
-						// 0: A<B, 1: tie, 2: B<A
-						d := it.W.Choose("elemLess(A,B)", 3)
-						if a[0].Sym != "A" {
+						// one decision per key for the pair, mirrored for the swapped call
+						keyName := strings.TrimLeft(a[0].Sym, "AB")
+						d := it.W.Choose("elemLess"+keyName, 3)
+						if !strings.HasPrefix(a[0].Sym, "A") {
 							d = 2 - d
 						}
 						switch d {
@@ -211,9 +229,14 @@ func ruleSrt2(c *Ctx) {
 						}
 						return ternaryConst(c, "UNKNOWN"), true
 					}
-					X, Y := absint.Obj(x, svPtr), absint.Obj(y, svPtr)
-					it.MaxSteps = 400
-					r := it.Call(fn, []absint.Val{absint.Slice(X), absint.Slice(Y), absint.Slice(absint.Int(dir)), absint.Slice(absint.Int(np))}, nil)
+					x, y := "A", "B"
+					if swap {
+						x, y = "B", "A"
+					}
+					X1, Y1 := absint.Obj(x+"1", svPtr), absint.Obj(y+"1", svPtr)
+					X2, Y2 := absint.Obj(x+"2", svPtr), absint.Obj(y+"2", svPtr)
+					it.MaxSteps = 800
+					r := it.Call(fn, []absint.Val{absint.Slice(X1, X2), absint.Slice(Y1, Y2), absint.Slice(absint.Int(dir), absint.Int(asc)), absint.Slice(absint.Int(np), absint.Int(first))}, nil)
 					if it.Err != nil {
 						return "error: " + it.Err.Error(), false
 					}
@@ -226,39 +249,54 @@ func ruleSrt2(c *Ctx) {
 					}
 					return "not-before", true
 				}
-				ab, ok1 := run("A", "B", false)
-				ba, ok2 := run("B", "A", true)
+				ab, ok1 := run(false)
+				ba, ok2 := run(true)
 				if !ok1 || !ok2 {
 					bad = append(bad, ab+" / "+ba)
 					return
 				}
 				cs := enumConstsOf(svt)
-				ta, tb := "?", "?"
-				if i := w.Get("enum:A.Type"); i >= 0 {
-					ta = cs[i].Name()
+				isNull := func(obj string) (bool, bool) {
+					i := w.Get("enum:" + obj + ".Type")
+					if i < 0 {
+						return false, false
+					}
+					return cs[i].Name() == "NullType", true
 				}
-				if i := w.Get("enum:B.Type"); i >= 0 {
-					tb = cs[i].Name()
+				// evaluate the specification lazily on the same world: a decision
+				// the code never asked is irrelevant only if the spec does not need it
+				need := ""
+				key := func(k string, dir, np int64) string {
+					el := w.Get("elemLess" + k)
+					if el < 0 {
+						need = "element comparison of key " + k
+						return "?"
+					}
+					if el != 1 {
+						return decide(el, false, false, dir, np)
+					}
+					an, ok1 := isNull("A" + k)
+					bn, ok2 := isNull("B" + k)
+					if !ok1 || !ok2 {
+						// null-ness never inspected: the code treats the tie as a tie of equals
+						need = "null-ness of key " + k
+						return "?"
+					}
+					return decide(1, an, bn, dir, np)
 				}
-				el := w.Get("elemLess(A,B)")
-				desc := fmt.Sprintf("dir=%d nulls=%d elem=%d A.Type=%s B.Type=%s: Less(A,B)=%s Less(B,A)=%s", dir, np, el, ta, tb, ab, ba)
-				aNull, bNull := ta == "NullType", tb == "NullType"
-				// a NULL against a non-NULL is never comparable by value (element result is a tie)
-				want := ""
-				switch {
-				case el == 0:
-					want = map[bool]string{true: "before/not-before", false: "not-before/before"}[dir == asc]
-				case el == 2:
-					want = map[bool]string{true: "not-before/before", false: "before/not-before"}[dir == asc]
-				case aNull && !bNull:
-					want = map[bool]string{true: "before/not-before", false: "not-before/before"}[np == first]
-				case !aNull && bNull:
-					want = map[bool]string{true: "not-before/before", false: "before/not-before"}[np == first]
-				default:
-					want = "not-before/not-before" // tie on this key → next key (none left)
+				want := key("1", dir, np)
+				if want == "tie" {
+					want = key("2", asc, first)
 				}
-				if ab+"/"+ba != want && len(bad) < 6 {
-					bad = append(bad, desc+", specified "+want)
+				if want == "?" {
+					if len(bad) < 6 {
+						bad = append(bad, fmt.Sprintf("dir=%d nulls=%d {%s}: the specified order needs the %s, which the comparator never looked at (Less(A,B)=%s Less(B,A)=%s)", dir, np, strings.Join(w.Asked(), " "), need, ab, ba))
+					}
+					return
+				}
+				wantPair := map[string]string{"before": "before/not-before", "after": "not-before/before", "tie": "not-before/not-before"}[want]
+				if ab+"/"+ba != wantPair && len(bad) < 6 {
+					bad = append(bad, fmt.Sprintf("dir=%d nulls=%d {%s}: Less(A,B)=%s Less(B,A)=%s, specified %s", dir, np, strings.Join(filterAsked(w.Asked()), " "), ab, ba, wantPair))
 				}
 			})
 			cells += n
@@ -267,11 +305,11 @@ func ruleSrt2(c *Ctx) {
 			}
 		}
 	}
-	key := "lib/query.(SortValues).Less: one key"
+	key := "lib/query.(SortValues).Less: two keys"
 	if len(bad) > 0 {
 		c.Bad(key, c.FnPos(fn), strings.Join(bad, "; "))
 	} else {
-		c.OkN(key, c.FnPos(fn), fmt.Sprintf("%d worlds (element result × direction × null-ness × null position): decided exactly as specified, tie falls through", cells), cells)
+		c.OkN(key, c.FnPos(fn), fmt.Sprintf("%d worlds (element result × direction × null-ness × null position over two keys): the first key that is not tied decides, a tie falls through to the next key", cells), cells)
 	}
 }
 
